@@ -626,9 +626,11 @@ fn drop_tables(
         &opts.visible_seqno,
     )?;
 
+    // NOTE: The version without the dropped tables is already published at this point,
+    // so a failing version GC must not fail the whole operation (same as in `register_tables`);
+    // it is retried on the next version change
     if let Err(e) = version_history_lock.maintenance(&opts.config.path, opts.mvcc_gc_watermark) {
-        log::error!("Manifest maintenance failed: {e:?}");
-        return Err(e);
+        log::warn!("Version GC failed: {e:?}");
     }
 
     drop(version_history_lock);
